@@ -14,9 +14,13 @@ one() { seed=$1; id=$2; wt=$3; s=$(date +%s)
 export -f one; export V
 for seed in ${@:-C01 C02 C03 C04 C05 C06 C07 C08 C09 C10 C11 C12 C13 C14 C15 C16 C17 C18 C19 C20}; do
   wt=/tmp/mx_$seed; rm -rf $wt; git clone -q /repo $wt && git -C $wt apply $V/seeded/$seed/patch.diff || { echo -e "$seed\t-\tpatch-does-not-apply" >> $out; continue; }
-  # the checks of one seed run one after the other (one work dir per check id), seeds two at a time
-  ( for id in ${REL[$seed]}; do one $seed $id $wt; done; rm -rf $wt $wt.*.out ) &
-  while [ $(jobs -r | wc -l) -ge ${PAR:-2} ]; do sleep 2; done
+  # seeds one after the other; the (distinct) checks of one seed in parallel
+  for id in ${REL[$seed]}; do
+    one $seed $id $wt &
+    while [ $(jobs -r | wc -l) -ge ${PAR:-3} ]; do sleep 2; done
+  done
+  wait
+  rm -rf $wt $wt.*.out
 done
 wait
 sort -o $out $out
